@@ -66,6 +66,7 @@ ModelMatches(T, m) == BadRows(T, m) = {} /\ SumNames(T, DOMAIN T.dent) = Cardina
 \* each returns the set of finding ids the step goes through
 PtKnown(q, p, h) ==
   (IF X.seal /\ q.op = "write" /\ p.st # "OK" THEN {"refused-write"} ELSE {})      \* a refused WRITE drops the handle's descriptor
+  \cup (IF q.op = "create" /\ p.st = "OK" /\ h.st = "OK" /\ Has(p, "attr") /\ Has(h, "attr") /\ "TRUNC" \in SeqSet(q.fl) /\ p.attr.size # h.attr.size THEN {"create-trunc-stale-attr"} ELSE {})
   \cup (IF X.ifh /\ q.op \in {"mkdir", "symlink", "create"} /\ q.uid # 0 /\ p.st = "EPERM" /\ h.st # "EPERM" THEN {"ifh-nonroot-mkdir"} ELSE {})
 
 (* ---------------- comparison of answers ---------------- *)
@@ -75,6 +76,13 @@ RetKeys == {"data", "tgt", "n", "pos", "val", "names", "statfs"}
 FieldsEq(p, h) == /\ \A k \in RetKeys : (Has(p, k) <=> Has(h, k)) /\ (Has(p, k) /\ Has(h, k) => p[k] = h[k])
                   /\ (Has(p, "attr") <=> Has(h, "attr"))
                   /\ (Has(p, "attr") /\ Has(h, "attr") => AttrEq(p.attr, h.attr))
+\* which parts of two successful answers differ (for narrow signatures)
+AttrKeys == <<"t", "perm", "uid", "gid", "size", "nlink", "rdev", "id">>
+RECURSIVE DiffAttr(_, _, _)
+DiffAttr(a, b, k) == IF k > Len(AttrKeys) THEN "" ELSE
+   (IF a[AttrKeys[k]] # b[AttrKeys[k]] /\ ~(AttrKeys[k] = "id" /\ (a.id = -2 \/ b.id = -2)) THEN "," \o AttrKeys[k] ELSE "") \o DiffAttr(a, b, k + 1)
+ReplyDiff(p, h) == (IF Has(p, "attr") /\ Has(h, "attr") THEN "attr" \o DiffAttr(p.attr, h.attr, 1) ELSE IF Has(p, "attr") # Has(h, "attr") THEN "attr?" ELSE "")
+                   \o (IF \E k \in RetKeys : (Has(p, k) # Has(h, k)) \/ (Has(p, k) /\ Has(h, k) /\ p[k] # h[k]) THEN ",value" ELSE "")
 TreeEq(p, h) == SeqSet(p.ch) = SeqSet(h.ch) /\ SeqSet(p.rm) = SeqSet(h.rm)
 NoEffect(p) == p.ch = <<>> /\ p.rm = <<>>
 \* status agreement: success on both sides or failure on both; the errno only where HostFs pins it
@@ -132,7 +140,7 @@ StepJudge(r) ==
            /\ e.kind # "gate" \/ e.why = "name" \/ Chk(stOK, "C05|" \o q.op \o "|gate-" \o e.why \o "|" \o p.st, <<q, p.st>>)
            /\ e.kind # "gate" \/ e.why = "name" \/ Chk(treeOK, "C05|" \o q.op \o "|gate-" \o e.why \o "|effect", p.ch)
            /\ e.kind = "gate" \/ Chk(stOK, "C05|" \o q.op \o "|status|" \o Ctx(q) \o "|" \o p.st \o "/" \o h.st, <<q, e.errs>>)
-           /\ e.kind = "gate" \/ ~stOK \/ Chk(fieldsOK, "C05|" \o q.op \o "|reply", <<q, [x \in DOMAIN p \ {"ch", "rm", "och", "orm"} |-> p[x]], [x \in DOMAIN h \ {"ch", "rm", "och", "orm"} |-> h[x]]>>)
+           /\ e.kind = "gate" \/ ~stOK \/ Chk(fieldsOK, "C05|" \o q.op \o "|reply|" \o ReplyDiff(p, h) \o "|" \o cls, <<q, [x \in DOMAIN p \ {"ch", "rm", "och", "orm"} |-> p[x]], [x \in DOMAIN h \ {"ch", "rm", "och", "orm"} |-> h[x]]>>)
            /\ e.kind = "gate" \/ ~stOK \/ Chk(treeOK, "C05|" \o q.op \o "|tree", <<q, p.ch, h.ch, p.rm, h.rm>>)
       /\ ~(q.op \in Creating /\ p.st = "OK" /\ q.uid # 0 /\ Has(p, "attr")) \/ Chk(p.attr.uid = q.uid /\ p.attr.gid = q.gid, "C05|" \o q.op \o "|owner", <<q, p.attr>>)
       /\ ~(ExplicitTimes(q) /\ p.st = "OK" /\ Has(p, "times")) \/ Chk(p.times.atime = ToString(q.attr.atime) /\ p.times.mtime = ToString(q.attr.mtime), "C05|setattr|times", <<q.attr, p.times>>)
